@@ -97,7 +97,45 @@ func runC03(c *Ctx) {
 				}
 				li := Locks(fn)
 				c.Ob("C03-D1", "ackHandler."+fld+"@"+FuncName(fn), fa.Instr.Pos(), li.HoldsAny(fa.Instr, fa.Base+".mu"), "ackHandler."+fld+" accessed without the handler's mutex; held="+li.Held(fa.Instr).String())
+				// each flag is SET only by the side it belongs to, which then runs the callback on every path:
+				// a third place that sets `called` (say, before decoding the reply) silences the timer without calling anybody
+				if fa.Write {
+					owner := FuncName(ownerOf(EnclosingTop(fn)))
+					want := map[string]string{"called": "(*sio.ackHandler).call", "timedOut": "sio.newAckHandlerWithTimeout"}[fld]
+					c.Ob("C03-D1", "ackHandler."+fld+"/set-only-by-its-side@"+FuncName(fn), fa.Instr.Pos(), owner == want, "ackHandler."+fld+" is set in "+FuncName(fn)+"; only "+want+" may set it, because that is the function that then invokes the callback on every path — setting it elsewhere makes the other side stand down while nobody calls back")
+				}
 			}
+		}
+	}
+
+	c.Rule("C03-D5", "retry queue: the application's callback of a queued emit is invoked, and the packet leaves the queue, only on a final outcome — the reply, or the failure of the last allowed try (tryCount > Retries) — never on the failure of an intermediate try (the packet is re-sent then and will report again)", 3)
+	{
+		top := p.Fn("sio", "clientPacketQueue.addToQueue")
+		n := 0
+		for _, f := range WithAnons(top)[1:] {
+			calls := CallsTo(Calls(f), `\(reflect\.Value\)\.Call`)
+			if len(calls) == 0 {
+				continue
+			}
+			// intermediate failure: the error argument is non-nil and tryCount <= Retries
+			as := []Assume{{`!.*\.IsNil\(\)`, true}, {`.*\.IsNil\(\)`, false}, {`\(.*tryCount > .*Retries\)`, false}, {`\(.*tryCount <= .*Retries\)`, true}, {`\(.*tryCount >= .*Retries\)`, false}, {`\(.*Retries < .*tryCount\)`, false}}
+			for _, cs := range calls {
+				n++
+				r, trail := PrunedCanReach(f, nil, as, func(in ssa.Instruction) bool { return in == cs.Instr }, nil)
+				c.Ob("C03-D5", FuncName(f)+"/callback-only-on-final-outcome", cs.Pos(), !r, "the application's ack callback is invoked although this try failed and another try follows: it will be invoked again with the next outcome: "+trailString(p, trail))
+			}
+			pops := findInstrs(f, func(in ssa.Instruction) bool {
+				st, ok := in.(*ssa.Store)
+				return ok && strings.HasSuffix(Addr(st.Addr), ".queuedPackets")
+			})
+			for _, po := range pops {
+				n++
+				r, trail := PrunedCanReach(f, nil, as, func(in ssa.Instruction) bool { return in == po }, nil)
+				c.Ob("C03-D5", FuncName(f)+"/dequeue-only-on-final-outcome", po.Pos(), !r, "the packet leaves the retry queue although this try failed and another try follows: "+trailString(p, trail))
+			}
+		}
+		if n < 3 {
+			anchorFail("C03-D5: found %d callback/dequeue sites in the retry queue's replacement ack, expected at least 3", n)
 		}
 	}
 
